@@ -487,7 +487,7 @@ class Tr(object):
         if f.id in BUILTIN_FN and (not ok or getattr(target, '__module__', '') in ('builtins', 'math')):
             args = n.args
             # arities the model implements; anything else fails closed rather than being mis-read
-            arity = {'sum': (1, 2), 'float': (1, 1), 'str': (1, 1), 'len': (1, 1), 'any': (1, 1), 'list': (1, 1), 'round': (2, 2), 'ceil': (1, 1)}.get(f.id)
+            arity = {'sum': (1, 2), 'float': (1, 1), 'str': (1, 1), 'len': (1, 1), 'any': (1, 1), 'list': (1, 1), 'round': (1, 2), 'ceil': (1, 1)}.get(f.id)
             if arity is not None and not (arity[0] <= len(args) <= arity[1]):
                 self.fail(n, 'call of %s with %d arguments' % (f.id, len(args)))
             if f.id == 'sum' and len(args) == 2:
